@@ -256,6 +256,7 @@ def run_real(case):
     try:
         p = Scripted([list(e) for e in case['script']], mode, clock)
         recs = []
+        recs_shared = {}
         for op in case['ops']:
             k = op['k']
             if k == 'b':
@@ -303,7 +304,11 @@ def run_real(case):
                     if op.get('single') and len(pats) == 1:
                         pats = pats[0]
                     if op.get('list_api'):
-                        ret = p.expect_list(p.compile_pattern_list(pats), **kw)
+                        # one list object for the whole history, edited in place before every call: expect_list() must look at
+                        # what the list contains now, not at what it contained on an earlier call
+                        shared = recs_shared.setdefault('list', [])
+                        shared[:] = p.compile_pattern_list(pats)
+                        ret = p.expect_list(shared, **kw)
                     else:
                         ret = p.expect(pats, **kw)
                 elif k == 'read':
